@@ -84,6 +84,25 @@ fn main() {
                 }
             }
         }
+        "show-ranges" => {
+            let text: &'static str = tj::leak(&rest[0].replace("\\n", "\n"));
+            let toks = tokenizer::tokenize(None, text).unwrap();
+            let toks: &'static [token::Token<'static>] = Box::leak(toks.into_boxed_slice());
+            let t = parser::parse(None, text, toks, &["u", "f", "g"]).unwrap();
+            fn walk(t: &term::Term, text: &str, d: usize) {
+                let r = t.source_range.unwrap();
+                println!("{}{:?} -> {:?}", " ".repeat(d * 2), std::mem::discriminant(&t.variant), &text[r.start..r.end]);
+                use term::Variant::*;
+                match &t.variant {
+                    Lambda(_, _, a, b) | Pi(_, _, a, b) | Application(a, b) | Sum(a, b) | Difference(a, b) | Product(a, b) | Quotient(a, b) | LessThan(a, b) => { walk(a, text, d + 1); walk(b, text, d + 1); }
+                    Negation(a) => walk(a, text, d + 1),
+                    If(c, a, b) => { walk(c, text, d + 1); walk(a, text, d + 1); walk(b, text, d + 1); }
+                    Let(ds, b) => { for (_, a, e) in ds { walk(a, text, d + 1); walk(e, text, d + 1); } walk(b, text, d + 1); }
+                    _ => {}
+                }
+            }
+            walk(&t, text, 0);
+        }
         "show-error" => c_lex::show_error(rest),
         other => {
             eprintln!("unknown subcommand {other}");
